@@ -88,7 +88,7 @@ def paren(e):
 
 def gen_c04(r, k):
     """one test function for the division family; returns (incan function text, python expression for the result, kind)"""
-    forms = ['plain', 'nested_l', 'nested_r', 'arith', 'int_of', 'let', 'compound', 'lambda', 'field_compound', 'elem_compound', 'stmt', 'plain']
+    forms = ['plain', 'nested_l', 'nested_r', 'arith', 'int_of', 'let', 'compound', 'lambda', 'field_compound', 'elem_compound', 'stmt', 'comp_shadow']
     form = forms[k % len(forms)]          # every shape occurs in every program (the operands are random)
     l, rr, z = atom(r), atom(r), atom(r)
     body = None
@@ -134,6 +134,16 @@ def gen_c04(r, k):
         fn = {'/': 'tdiv', '//': 'fdiv', '%': 'fmod'}[op]
         e = ('ys[1]', f'{fn}(fs[1], {v[1]})', 'float')
         body = f'    mut ys: List[float] = [0.5, 1.5, 2.25]\n    ys[1] {op}= {v[0]}\n    return ys[1]\n'
+    elif form == 'comp_shadow':
+        # a comprehension variable that shadows an outer variable of the OTHER numeric kind
+        op = r.choice(['//', '%'])
+        fn = {'//': 'fdiv', '%': 'fmod'}[op]
+        if r.random() < 0.5:
+            e = ('ys', f'sum({fn}(v, 2) for v in xs)', 'int')
+            body = f'    v: float = 2.5\n    ys = [v {op} 2 for v in xs]\n    mut acc: int = 0\n    for w in ys:\n        acc += w\n    return acc\n'
+        else:
+            e = ('ys', f'sum({fn}(v, 2) for v in fs)', 'float')
+            body = f'    v: int = 7\n    ys = [v {op} 2 for v in fs]\n    mut acc: float = 0.0\n    for w in ys:\n        acc += w\n    return acc\n'
     else:  # lambda with an untyped parameter: the generic helper dispatches on the run-time type
         op = r.choice(['//', '%'])
         fn = {'//': 'fdiv', '%': 'fmod'}[op]
@@ -159,7 +169,7 @@ def table_kind(op, lk, rk, exp_lit=None):
 
 
 def gen_c07(r, k):
-    forms = ['flat', 'prec', 'pow', 'let_ann', 'compound', 'field_compound', 'zip', 'enumerate', 'cmp', 'flat']
+    forms = ['flat', 'prec', 'pow', 'let_ann', 'compound', 'field_compound', 'zip', 'enumerate', 'cmp', 'comp_shadow']
     form = forms[k % len(forms)]          # every shape occurs in every program (the operands are random)
     l, rr, z = atom(r), atom(r), atom(r)
     body = None
@@ -195,6 +205,14 @@ def gen_c07(r, k):
         v = atom(r, 'int')
         e = ('it2.price', f'it.price {op} {v[1]}', 'float')
         body = f'    mut it2: Item = Item(qty=3, price=2.5, tags=[7, 1, 9, 4], name="héllo")\n    it2.price {op}= {v[0]}\n    return it2.price\n'
+    elif form == 'comp_shadow':
+        op = r.choice(['+', '*', '-'])
+        if r.random() < 0.5:
+            e = ('ys', f'sum(v {op} 2 for v in xs)', 'int')
+            body = f'    v: float = 2.5\n    ys = [v {op} 2 for v in xs]\n    mut acc: int = 0\n    for w in ys:\n        acc += w\n    return acc\n'
+        else:
+            e = ('ys', f'sum(v {op} 2 for v in fs)', 'float')
+            body = f'    v: int = 7\n    ys = [v {op} 2 for v in fs]\n    mut acc: float = 0.0\n    for w in ys:\n        acc += w\n    return acc\n'
     elif form == 'zip':
         op = r.choice(['+', '*'])
         e = ('acc', f'sum(p[1] {op} 2 for p in zip(xs, fs))', 'float')
@@ -214,7 +232,7 @@ def gen_c07(r, k):
 
 
 def gen_c05(r, k):
-    forms = ['idx', 'sidx', 'slice', 'sslice', 'forslice', 'range', 'nested_assign', 'fstring', 'matchlist', 'elem_assign', 'idx', 'slice']
+    forms = ['idx', 'sidx', 'slice', 'sslice', 'forslice', 'range', 'nested_assign', 'fstring', 'matchlist', 'elem_assign', 'alias', 'bigrange']
     form = forms[k % len(forms)]          # every shape occurs in every program (indices, bounds and objects are random)
     body = None
     ints = ['i', 'j', '0', '-1', '2', '-3', 'len(xs) - 1']
@@ -251,6 +269,14 @@ def gen_c05(r, k):
         ii = r.choice(['1', '-1', 'i % 3', '-2'])
         e = ('ys', f'__elem({ii})', 'int')
         body = f'    mut ys: List[int] = [1, 2, 3, 5, 8]\n    ys[{ii}] = 55\n    ys[{ii}] += 3\n    return ys[{ii}] * 100 + ys[0] + ys[-1]\n'
+    elif form == 'alias':
+        # the registry's alias spelling of the list type, indexed with a computed negative index
+        e = ('ys', '[7, 8, 9][(0 - 1)] * 10 + [7, 8, 9][i % 3]', 'int')
+        body = '    ys: Vec[int] = [7, 8, 9]\n    k = 0 - 1\n    return ys[k] * 10 + ys[i % 3]\n'
+    elif form == 'bigrange':
+        # bounds beyond 32 bits held in un-annotated locals
+        e = ('acc', '__rangehash(65536 * 65536, 65536 * 65536 + 3)', 'int')
+        body = '    big = 65536 * 65536\n    mut acc: int = 0\n    for q in range(big, big + 3):\n        acc = acc * 31 + q\n    return acc\n'
     elif form == 'fstring':
         e = ('f', 'f"{xs[i % 3]}-{s[-2]}-{it.tags[-1]}"', 'str')
         body = '    return f"{xs[i % 3]}-{s[-2]}-{it.tags[-1]}"\n'
@@ -275,7 +301,7 @@ def rangehash(*a):
     return acc
 
 
-def build_program(pid, seed, n):
+def build_program(pid, seed, n, modular=False):
     r = random.Random(f'{pid}:{seed}')
     funcs, checks = [], []
     k = 0
@@ -298,7 +324,7 @@ def build_program(pid, seed, n):
                 return ys[ii] * 100 + ys[0] + ys[-1]
             env['__nested'], env['__elem'] = nested, elem
             try:
-                val = eval(pyexpr, {}, env)
+                val = eval(pyexpr, dict(env))
             except (ZeroDivisionError, IndexError, KeyError, ValueError, OverflowError):
                 ok = False
                 break
@@ -326,6 +352,13 @@ def build_program(pid, seed, n):
         else:
             main.append(f'    println({call})')
     main.append('    println("#end")')
+    if modular:
+        # the same functions as IMPORTED modules: `shapes.incn` (the model and the helpers) and `gen.incn` (the test
+        # functions, importing from shapes) next to the main file, which imports gen first and shapes second
+        shapes = PRELUDE.replace('model Item:', 'pub model Item:').replace('\ndef ', '\npub def ')
+        lib = 'from shapes import Item, half, halff, mk, word\n\n' + ''.join(f.replace('def t', 'pub def t', 1) for f in funcs)
+        names = ', '.join(f't{q}' for q in range(len(funcs)))
+        return {'prog.incn': f'from gen import {names}\nfrom shapes import Item\n\n' + '\n'.join(main) + '\n', 'gen.incn': lib, 'shapes.incn': shapes}, checks, funcs
     return PRELUDE + ''.join(funcs) + '\n'.join(main) + '\n', checks, funcs
 
 
@@ -357,24 +390,26 @@ def same(kind, val, lines):
 def run_program(exe, src, workdir, timeout=900):
     shutil.rmtree(workdir, ignore_errors=True)
     os.makedirs(workdir)
-    path = os.path.join(workdir, 'prog.incn')
-    with open(path, 'w') as f:
-        f.write(src)
+    files = src if isinstance(src, dict) else {'prog.incn': src}
+    for name, text in files.items():
+        with open(os.path.join(workdir, name), 'w') as f:
+            f.write(text)
     env = dict(os.environ, CARGO_NET_OFFLINE='true', RUST_BACKTRACE='0', NO_COLOR='1')
     p = subprocess.run([exe, 'runfile', 'prog.incn'], cwd=workdir, capture_output=True, text=True, timeout=timeout, env=env)
     return p.returncode, p.stdout, p.stderr
 
 
-def check_program(exe, pid, seed, n, workdir):
-    src, checks, funcs = build_program(pid, seed, n)
+def check_program(exe, pid, seed, n, workdir, modular=False):
+    src, checks, funcs = build_program(pid, seed, n, modular)
+    shown = src if isinstance(src, str) else '\n'.join(f'# ---- {k}\n{v}' for k, v in src.items())
     rc, out, err = run_program(exe, src, workdir)
     shutil.rmtree(os.path.join(workdir, 'target'), ignore_errors=True)
-    args = {'property': pid, 'seed': seed, 'functions': n}
+    args = {'property': pid, 'seed': seed, 'functions': n, 'modular': modular}
     if rc != 0 or '#end' not in out:
         tail = (err.strip().split('\n') or [''])
         msg = '\n'.join(tail[-25:])[-1800:]
         return {'ok': False, 'args': args, 'observed': {'exit_code': rc, 'stderr_tail': msg}, 'expected': 'the program compiles (front end and rustc) and runs to the end',
-                'what': 'a well-typed program over the documented arithmetic / indexing forms must build and run', 'source': src, 'checks': len(checks)}
+                'what': 'a well-typed program over the documented arithmetic / indexing forms must build and run', 'source': shown, 'checks': len(checks)}
     got = parse_output(out)
     for (k, ai, kind, val) in checks:
         lines = got.get(f'{k}.{ai}')
@@ -432,13 +467,14 @@ def run(pid, exe, build_dir, programs, n, base_seed=0):
     """returns (total value checks, first failing verdict or None)"""
     total = 0
     for q in range(programs):
-        v = check_program(exe, pid, base_seed + q, n, os.path.join(build_dir, f'diffrun_{pid}_{q}'))
+        v = check_program(exe, pid, base_seed + q, n, os.path.join(build_dir, f'diffrun_{pid}_{q}'), modular=(q % 2 == 1))
         total += v.get('checks', 0)
         if not v['ok']:
             return total, v
     # error behaviour: one case per quick run (rotating with the seed), all of them in a thorough run
     if pid in ERROR_CASES:
-        cases = range(len(ERROR_CASES[pid])) if programs > 1 else [base_seed // 100 + int(os.environ.get('VERIF_ERRCASE', '0'))]
+        # quick: the first case and the last one (the most recently added shape); thorough: all of them
+        cases = range(len(ERROR_CASES[pid])) if programs > 2 else sorted({(base_seed // 100) % len(ERROR_CASES[pid]), len(ERROR_CASES[pid]) - 1})
         for c in cases:
             v = check_error_program(exe, pid, c, os.path.join(build_dir, f'diffrun_{pid}_err'))
             total += 1
